@@ -841,8 +841,8 @@ Proof.
   assert (HB' : B L s) by (eapply B_ext; [|eauto]; intros; symmetry; auto).
   specialize (S s I HB'). destruct (exec O fuel c s); auto.
   - destruct S; split; auto. eapply B_ext; eauto.
-  - destruct S as (a & b & c0); repeat split; auto; eapply B_ext; eauto.
-  - destruct S as (a & b & c0); repeat split; auto; eapply B_ext; eauto.
+  - destruct S as (a & b & c0). split; [auto|]. split; [auto|]. eapply B_ext; eauto.
+  - destruct S as (a & b & c0). split; [auto|]. split; [auto|]. eapply B_ext; eauto.
 Qed.
 
 (* a straight-line prefix followed by a continuation *)
@@ -860,7 +860,7 @@ Lemma sspec_cseq : forall O fuel inl c k (L L1 : nat -> Prop),
   sspec O fuel inl (cseq c k) L.
 Proof.
   intros O fuel inl c k L L1 T K s I HB. rewrite cseq_exec. specialize (T s I HB).
-  destruct (run O c s); auto. destruct T. apply K; auto.
+  destruct (run O c s); auto; try contradiction. destruct T. apply K; auto.
 Qed.
 
 Lemma release_res_ok : forall e A c r A1, gen_expr e A = (c, r, A1) -> wfA A ->
@@ -910,7 +910,7 @@ Proof.
   split; auto. split; auto. intros O fuel.
   eapply sspec_cseq with (L1 := inuse A).
   - eapply triple_ext; [|eapply triple_app with (L1 := fun u => inuse A u \/ r = RTmp u); [apply T1; auto|]].
-    2:{ apply triple_one. intros s I HB. apply step_ISetLoc; auto. }
+    2:{ apply triple_one. intros s I HB. apply (step_ISetLoc O x r s (fun u => inuse A u \/ r = RTmp u)); auto. }
     simpl. intros u. split; [tauto|]. intros Hu. split; auto. intro Hr. apply (N1 u Hr); auto.
   - intros s I HB. simpl. auto.
 Qed.
@@ -935,14 +935,345 @@ Proof.
   destruct (proj1 gen_ok e A c0 r A1 G W) as (W1 & U1 & N1 & T1).
   split; auto. split; auto. intros O fuel s I HB.
   rewrite cseq_exec, run_app. specialize (T1 O (inuse A) (fun u H => H) s I HB).
-  destruct (run O c0 s) as [s1| | | | | |]; simpl; auto. destruct T1 as [I1 B1].
-  pose proof (step_ISetRes O r s1 _ I1 B1) as HS.
-  destruct (step O (ISetRes r) s1) as [s2| | | | | |]; simpl; auto; try (apply HS; intros; auto; fail).
-  destruct HS as [I2 B2]; [intros; auto|].
+  destruct (run O c0 s) as [s1|s1|s1|s1|s1|w|]; cbn [bind run app]; try contradiction; auto.
+  destruct T1 as [I1 B1].
+  assert (HS := step_ISetRes O r s1 (fun u => inuse A u \/ r = RTmp u) I1 B1 (fun t H => or_intror H)).
+  destruct (step O (ISetRes r) s1) as [s2|s2|s2|s2|s2|w|]; cbn [bind run app]; try contradiction; auto.
+  destruct HS as [I2 B2].
   rewrite run_decrefs_eq.
   destruct (decref_all_ok (inuse_list (release_all (tmp_of r) A1)) s2 _ I2 B2 (inuse_list_nodup _))
     as (s3 & E3 & I3 & B3 & _).
   { intros t Ht. apply inuse_list_ok in Ht. apply U2 in Ht. split; auto. intro Hr. apply (N1 t Hr); auto. }
-  rewrite E3. simpl. split; auto. eapply BT_ext; [|eauto]. simpl. intros u. split; [|tauto].
-  intros [[Hu _] Hn]. apply Hn. apply inuse_list_ok. apply U2. destruct Hu; auto. exfalso. tauto.
+  rewrite E3. cbn [exec]. split; auto. eapply BT_ext; [|eauto]. simpl. intros u. split; [|tauto].
+  intros [[Hu Hr] Hn]. apply Hn. apply inuse_list_ok. apply U2. destruct Hu; auto. exfalso. tauto.
+Qed.
+
+Lemma stmt_if : forall e s1 s2, stmt_ok s1 -> stmt_ok s2 -> stmt_ok (SIf e s1 s2).
+Proof.
+  intros e s1 s2 IH1 IH2 A c A' inl H W J. simpl in H, J. apply andb_true_iff in J. destruct J as [J1 J2].
+  destruct (gen_expr e A) as [[c0 r] A1] eqn:G.
+  destruct (gen_stmt s1 (release_all (tmp_of r) A1)) as [c1 A3] eqn:G1.
+  destruct (gen_stmt s2 A3) as [c2 A4] eqn:G2. injection H as <- <-.
+  destruct (release_res_ok _ _ _ _ _ G W) as (W2 & U2).
+  destruct (proj1 gen_ok e A c0 r A1 G W) as (W1 & U1 & N1 & T1).
+  destruct (IH1 _ _ _ _ G1 W2 J1) as (W3 & U3 & S1). destruct (IH2 _ _ _ _ G2 W3 J2) as (W4 & U4 & S2).
+  split; auto. split; [intros u; rewrite U4, U3, U2; tauto|]. intros O fuel.
+  eapply sspec_cseq with (L1 := inuse A).
+  - eapply triple_ext; [|eapply triple_app with (L1 := fun u => inuse A u \/ r = RTmp u); [apply T1; auto|
+      eapply triple_cons with (L1 := fun u => inuse A u \/ r = RTmp u)]].
+    2:{ apply triple_one. intros s I HB. apply (step_ITruth O r s (fun u => inuse A u \/ r = RTmp u)); auto. }
+    2:{ apply triple_decrefs; [apply nodup_tmp_of|]. intros t Ht. apply in_tmp_of in Ht. auto. }
+    simpl. intros u. rewrite in_tmp_of. split; [tauto|]. intros Hu. split; auto. intro Hr. apply (N1 u Hr); auto.
+  - intros s I HB. cbn [exec]. destruct (flag s).
+    + apply (sspec_ext O fuel inl c1 _ (inuse A) U2 (S1 O fuel)); auto.
+    + apply (sspec_ext O fuel inl c2 (inuse A3) (inuse A)); auto. intros u. rewrite U3, U2. tauto.
+Qed.
+
+Lemma stmt_store : forall v es vl, stmt_ok (SStore v es vl).
+Proof.
+  intros v es vl A c A' inl H W _. simpl in H.
+  destruct (gen_expr v A) as [[c1 r] A1] eqn:G1. destruct (gen_list es A1) as [[c2 rs] A2] eqn:G2.
+  injection H as <- <-.
+  destruct (proj1 gen_ok v A c1 r A1 G1 W) as (W1 & U1 & N1 & T1).
+  destruct (proj2 gen_ok es A1 c2 rs A2 G2 W1) as (W2 & U2 & Nd & Dj & T2).
+  set (order := if vl then tmps_of rs ++ tmp_of r else tmp_of r ++ tmps_of rs).
+  assert (Hin : forall u, In u order <-> r = RTmp u \/ In u (tmps_of rs)).
+  { intros u. unfold order. destruct vl; rewrite in_app_iff, in_tmp_of; tauto. }
+  assert (HrT : forall u, r = RTmp u -> ~ In u (tmps_of rs)).
+  { intros u Hr Hx. apply (Dj _ Hx). apply U1. auto. }
+  assert (Hnd : NoDup order).
+  { unfold order. destruct vl.
+    - destruct r; simpl; rewrite ?app_nil_r; auto. apply nodup_snoc; auto.
+    - destruct r; simpl; auto. constructor; auto. }
+  destruct (release_all_ok order A2 W2 Hnd) as (W3 & U3).
+  { intros t Ht. apply Hin in Ht. apply U2. destruct Ht; [left; apply U1; auto|auto]. }
+  split; auto. split.
+  { intros u. rewrite U3, U2, U1, Hin. split.
+    - intros [[[Hx|Hx]|Hx] Hn]; tauto.
+    - intros Hx. split; auto. intros [Hr|Hr]; [apply (N1 u Hr); auto|]. apply (Dj _ Hr). apply U1. auto. }
+  intros O fuel. eapply sspec_cseq with (L1 := inuse A); [|intros s I HB; cbn [exec]; auto].
+  eapply triple_ext; [|eapply triple_app with (L1 := fun u => inuse A u \/ r = RTmp u); [apply T1; auto|
+    eapply triple_app with (L1 := fun u => (inuse A u \/ r = RTmp u) \/ In u (tmps_of rs)); [apply T2|
+    eapply triple_cons with (L1 := fun u => (inuse A u \/ r = RTmp u) \/ In u (tmps_of rs))]]].
+  3:{ apply triple_one. intros s I HB.
+      apply (step_IVoid O (rs ++ [r]) s (fun u => (inuse A u \/ r = RTmp u) \/ In u (tmps_of rs))); auto.
+      intros t Ht. apply in_app_iff in Ht. destruct Ht as [Ht|[Ht|[]]]; [right; apply in_tmps_of; auto|subst; auto]. }
+  3:{ apply triple_decrefs; auto. intros t Ht. apply Hin in Ht. tauto. }
+  2:{ intros u Hu. apply U1. auto. }
+  simpl. intros u. rewrite Hin. split; [tauto|]. intros Hx. split; auto.
+  intros [Hr|Hr]; [apply (N1 u Hr); auto|]. apply (Dj _ Hr). apply U1. auto.
+Qed.
+
+(* the for-in loop *)
+Lemma loop_ok : forall O it d x body (L : nat -> Prop) inl n,
+  L it -> ~ L d ->
+  (forall s, Inv s -> B L s ->
+     match body s with
+     | Norm s' => Inv s' /\ B L s'
+     | Brk s' | Cnt s' => Inv s' /\ B L s'
+     | Err s' => Inv s' /\ res s' = None
+     | Ret s' => Inv s' /\ BT (fun _ => False) s'
+     | Stuck _ => False
+     | Fuel => True
+     end) ->
+  forall s, Inv s -> B L s ->
+    match loop_on O it d x body n s with
+    | Norm s' => Inv s' /\ B (fun u => L u /\ u <> it) s'
+    | Brk s' | Cnt s' => inl = true /\ Inv s' /\ B (fun u => L u /\ u <> it) s'
+    | Err s' => Inv s' /\ res s' = None
+    | Ret s' => Inv s' /\ BT (fun _ => False) s'
+    | Stuck _ => False
+    | Fuel => True
+    end.
+Proof.
+  intros O it d x body L inl n Hit Hd Hb. induction n as [|n IH]; intros s I [Rn HB]; cbn [loop_on]; auto.
+  pose proof (step_INext O d it s L I HB Hit Hd) as HN.
+  destruct (step O (INext d it) s) as [s1|s1|s1|s1|s1|w|]; try contradiction.
+  2:{ destruct HN; split; auto; congruence. }
+  destruct HN as (I1 & R1 & HB1). destruct (flag s1).
+  - pose proof (step_ISetLoc O x (RTmp d) s1 _ I1 HB1 (fun t H => or_intror (eq_sym (f_equal (fun r => match r with RTmp u => u | _ => t end) H)))) as HS.
+    unfold post in HS.
+    destruct (step O (ISetLoc x (RTmp d)) s1) as [s2|s2|s2|s2|s2|w|]; try contradiction.
+    2:{ destruct HS; split; auto; congruence. }
+    destruct HS as (I2 & HB2 & R2).
+    assert (B2 : B L s2).
+    { split; [congruence|]. eapply BT_ext; [|eauto]. simpl. intros u. split.
+      - intros [[Hu|Hu] Hn]; auto. exfalso. apply Hn. congruence.
+      - intros Hu. split; auto. intros [= ->]. auto. }
+    specialize (Hb s2 I2 B2). destruct (body s2) as [s3|s3|s3|s3|s3|w|]; try contradiction; auto.
+    + destruct Hb. apply IH; auto.
+    + destruct Hb as [I3 [R3 HB3]].
+      pose proof (step_IDecref O it s3 L I3 HB3 Hit) as HD. unfold post in HD.
+      destruct (step O (IDecref it) s3); try contradiction.
+      * destruct HD as (a & b & c). split; auto. split; auto. congruence.
+      * destruct HD; split; auto; congruence.
+    + destruct Hb. apply IH; auto.
+  - pose proof (step_IDecref O it s1 L I1 HB1 Hit) as HD. unfold post in HD.
+    destruct (step O (IDecref it) s1); try contradiction.
+    + destruct HD as (a & b & c). split; auto. split; auto. congruence.
+    + destruct HD; split; auto; congruence.
+Qed.
+
+Lemma stmt_for : forall x e body, stmt_ok body -> stmt_ok (SFor x e body).
+Proof.
+  intros x e body IHb A c A' inl H W J. simpl in H, J.
+  destruct (gen_expr e A) as [[ce r] A1] eqn:G. destruct (alloc A1) as [it A2] eqn:Al.
+  destruct (alloc (release_all (tmp_of r) A2)) as [d A4] eqn:Al2.
+  destruct (gen_stmt body (release d A4)) as [cb A6] eqn:Gb. injection H as <- <-.
+  destruct (proj1 gen_ok e A ce r A1 G W) as (W1 & U1 & N1 & T1).
+  destruct (alloc_ok _ _ _ Al W1) as (W2 & Nit & U2).
+  destruct (release_all_ok (tmp_of r) A2 W2 (nodup_tmp_of r)) as (W3 & U3).
+  { intros t Ht. apply in_tmp_of in Ht. apply U2. left. apply U1. auto. }
+  destruct (alloc_ok _ _ _ Al2 W3) as (W4 & Nd & U4).
+  destruct (release_ok A4 d W4) as (W5 & U5). { apply U4. auto. }
+  destruct (IHb _ _ _ _ Gb W5 J) as (W6 & U6 & Sb).
+  assert (HitA : ~ inuse A it). { intro Hx. apply Nit. apply U1. auto. }
+  assert (U5' : forall u, inuse (release d A4) u <-> inuse A u \/ u = it).
+  { intros u. rewrite U5, U4, U3, U2, U1, in_tmp_of. split.
+    - intros [[[[[Hx|Hx]|Hx] Hn]|Hx] Hn2]; tauto.
+    - intros [Hx|Hx].
+      + split.
+        * left. split; auto. intro Hr. apply (N1 u Hr); auto.
+        * intro; subst. apply Nd. apply U3. split. apply U2. left. apply U1. auto.
+          rewrite in_tmp_of. intro Hr. apply (N1 d Hr); auto.
+      + subst. split.
+        * left. split; auto. intro Hr. apply Nit. apply U1. auto.
+        * intro; subst. apply Nd. apply U3. split. apply U2. auto.
+          rewrite in_tmp_of. intro Hr. apply Nit. apply U1. auto. }
+  destruct (release_ok A6 it W6) as (W7 & U7). { apply U6. apply U5'. auto. }
+  split; auto. split.
+  { intros u. rewrite U7, U6, U5'. split; [intros [[Hx|Hx] Hn]; tauto|].
+    intros Hx. split; auto. intro; subst; auto. }
+  intros O fuel. eapply sspec_cseq with (L1 := fun u => inuse A u \/ u = it).
+  - eapply triple_ext; [|eapply triple_app with (L1 := fun u => inuse A u \/ r = RTmp u); [apply T1; auto|
+      eapply triple_cons with (L1 := fun u => ((inuse A u \/ r = RTmp u) /\ ~ In u []) \/ u = it)]].
+    2:{ apply triple_one. intros s I HB.
+        apply (step_IOp O it [r] [] s (fun u => inuse A u \/ r = RTmp u)); auto.
+        - intros t [Ht|[]]. subst; auto.
+        - constructor.
+        - intros t [].
+        - intros [Hx|Hx]; auto. apply Nit. apply U1. auto. }
+    2:{ apply triple_decrefs; [apply nodup_tmp_of|]. intros t Ht. apply in_tmp_of in Ht. left. split; auto. }
+    simpl. intros u. rewrite in_tmp_of. split.
+    + intros [[[[Hx|Hx] _]|Hx] Hn]; tauto.
+    + intros [Hx|Hx].
+      * split; [left; split; auto|]. intro Hr. apply (N1 u Hr); auto.
+      * subst. split; auto. intro Hr. apply Nit. apply U1. auto.
+  - intros s I HB. cbn [exec].
+    pose proof (loop_ok O it d x (exec O fuel cb) (fun u => inuse A u \/ u = it) inl fuel) as HL.
+    assert (Hd : ~ (inuse A d \/ d = it)).
+    { intro Hx. apply Nd. apply U3. rewrite in_tmp_of. destruct Hx as [Hx|Hx].
+      - split; [apply U2; left; apply U1; auto|]. intro Hr. apply (N1 d Hr); auto.
+      - subst. split; [apply U2; auto|]. intro Hr. apply Nit. apply U1. auto. }
+    specialize (HL (or_intror eq_refl) Hd).
+    assert (Hbody : forall s0, Inv s0 -> B (fun u => inuse A u \/ u = it) s0 ->
+       match exec O fuel cb s0 with
+       | Norm s' => Inv s' /\ B (fun u => inuse A u \/ u = it) s'
+       | Brk s' | Cnt s' => Inv s' /\ B (fun u => inuse A u \/ u = it) s'
+       | Err s' => Inv s' /\ res s' = None
+       | Ret s' => Inv s' /\ BT (fun _ => False) s'
+       | Stuck _ => False
+       | Fuel => True
+       end).
+    { intros s0 I0 B0. pose proof (sspec_ext O fuel true cb _ _ U5' (Sb O fuel) s0 I0 B0) as HS.
+      destruct (exec O fuel cb s0); auto; tauto. }
+    specialize (HL Hbody s I HB).
+    destruct (loop_on O it d x (exec O fuel cb) fuel s); auto.
+    + destruct HL; split; auto. eapply B_ext; [|eauto]. simpl. intros u. split; [intros [[Hx|Hx] Hn]; tauto|].
+      intros Hx. split; auto. intro; subst; auto.
+    + destruct HL as (a & b & c). split; auto. split; auto. eapply B_ext; [|eauto]. simpl. intros u.
+      split; [intros [[Hx|Hx] Hn]; tauto|]. intros Hx. split; auto. intro; subst; auto.
+    + destruct HL as (a & b & c). split; auto. split; auto. eapply B_ext; [|eauto]. simpl. intros u.
+      split; [intros [[Hx|Hx] Hn]; tauto|]. intros Hx. split; auto. intro; subst; auto.
+Qed.
+
+Theorem gen_stmt_ok : forall st, stmt_ok st.
+Proof.
+  induction st.
+  - apply stmt_skip. - apply stmt_seq; auto. - apply stmt_assign. - apply stmt_expr. - apply stmt_return.
+  - apply stmt_store. - apply stmt_if; auto. - apply stmt_for; auto.
+  - apply stmt_jump. - apply stmt_jump.
+Qed.
+
+(* ---------- function prologue / epilogue ---------- *)
+Lemma temp_clear_ok : forall s k o, Inv s -> get k (temps s) = Some o ->
+  exists s1, give o s = Some s1 /\ Inv (set_temps (rem k (temps s1)) s1) /\
+    temps s1 = temps s /\ res s1 = res s /\ locs s1 = locs s.
+Proof.
+  intros s k o I G. pose proof (bound_pos _ _ _ I G) as Hp. rewrite (give_some _ _ Hp).
+  eexists; split; [reflexivity|]. destruct I as [a b c d]. simpl. split; [|auto].
+  constructor; simpl; auto.
+  - apply nodup_rem; auto.
+  - intros o'. rewrite c. pose proof (cnt_rem o' k o _ a G). simpl in *. lia.
+  - apply errs_give; auto.
+Qed.
+
+Lemma loc_clear_ok : forall s k o, Inv s -> get k (locs s) = Some o ->
+  exists s1, give o s = Some s1 /\ Inv (set_locs (rem k (locs s1)) s1) /\
+    temps s1 = temps s /\ res s1 = res s /\ locs s1 = locs s.
+Proof.
+  intros s k o I G. pose proof (loc_pos _ _ _ I G) as Hp. rewrite (give_some _ _ Hp).
+  eexists; split; [reflexivity|]. destruct I as [a b c d]. simpl. split; [|auto].
+  constructor; simpl; auto.
+  - apply nodup_rem; auto.
+  - intros o'. rewrite c. pose proof (cnt_rem o' k o _ b G). simpl in *. lia.
+  - apply errs_give; auto.
+Qed.
+
+Lemma sweep_temps_ok : forall ks s, Inv s ->
+  exists s', sweep temps set_temps ks s = Norm s' /\ Inv s' /\ res s' = res s /\ locs s' = locs s /\
+    (forall u, In u ks -> get u (temps s') = None) /\
+    (forall u, get u (temps s) = None -> get u (temps s') = None).
+Proof.
+  induction ks as [|k ks IH]; intros s I; cbn [sweep].
+  - exists s. split; [auto|]. split; [auto|]. split; [auto|]. split; [auto|]. split; [intros u []|auto].
+  - destruct (get k (temps s)) as [o|] eqn:G.
+    + destruct (temp_clear_ok s k o I G) as (s1 & E1 & I1 & T1 & R1 & L1). rewrite E1.
+      destruct (IH _ I1) as (s2 & E2 & I2 & R2 & L2 & H1 & H2). exists s2. rewrite E2.
+      simpl in R2, L2, H2. split; auto. split; auto. split; [congruence|]. split; [congruence|]. split.
+      * intros u [<-|Hu]; auto. apply H2. apply get_rem_same.
+      * intros u Hu. apply H2. destruct (Nat.eq_dec u k); [subst; apply get_rem_same|].
+        rewrite get_rem_other; auto. congruence.
+    + destruct (IH _ I) as (s2 & E2 & I2 & R2 & L2 & H1 & H2). exists s2. rewrite E2.
+      split; [auto|]. split; [auto|]. split; [auto|]. split; [auto|]. split; [|auto].
+      intros u [<-|Hu]; auto.
+Qed.
+
+Lemma sweep_locs_ok : forall ks s, Inv s ->
+  exists s', sweep locs set_locs ks s = Norm s' /\ Inv s' /\ res s' = res s /\ temps s' = temps s /\
+    (forall u, In u ks -> get u (locs s') = None) /\
+    (forall u, get u (locs s) = None -> get u (locs s') = None).
+Proof.
+  induction ks as [|k ks IH]; intros s I; cbn [sweep].
+  - exists s. split; [auto|]. split; [auto|]. split; [auto|]. split; [auto|]. split; [intros u []|auto].
+  - destruct (get k (locs s)) as [o|] eqn:G.
+    + destruct (loc_clear_ok s k o I G) as (s1 & E1 & I1 & T1 & R1 & L1). rewrite E1.
+      destruct (IH _ I1) as (s2 & E2 & I2 & R2 & L2 & H1 & H2). exists s2. rewrite E2.
+      simpl in R2, L2, H2. split; auto. split; auto. split; [congruence|]. split; [congruence|]. split.
+      * intros u [<-|Hu]; auto. apply H2. apply get_rem_same.
+      * intros u Hu. apply H2. destruct (Nat.eq_dec u k); [subst; apply get_rem_same|].
+        rewrite get_rem_other; auto. congruence.
+    + destruct (IH _ I) as (s2 & E2 & I2 & R2 & L2 & H1 & H2). exists s2. rewrite E2.
+      split; [auto|]. split; [auto|]. split; [auto|]. split; [auto|]. split; [|auto].
+      intros u [<-|Hu]; auto.
+Qed.
+
+Lemma swept_nil : forall m m', (forall u, In u (seq 0 (kbound m)) -> get u m' = None) ->
+  (forall u, get u m = None -> get u m' = None) -> m' = [].
+Proof.
+  intros m m' H1 H2. apply all_none_nil. intros k.
+  destruct (get k m) eqn:G; [|auto]. apply H1. apply in_seq. apply get_kbound in G. lia.
+Qed.
+
+Definition clean (s : state) : Prop :=
+  temps s = [] /\ locs s = [] /\ res s = None /\ (forall o, bal (tr s) o = 0) /\ nanny_errs (tr s) = 0.
+
+Lemma epilogue_ok : forall b s, Inv s -> temps s = [] ->
+  match epilogue b s with Done _ s' => clean s' | _ => False end.
+Proof.
+  intros b s I Ht. unfold epilogue.
+  destruct (sweep_locs_ok (seq 0 (kbound (locs s))) s I) as (s1 & E1 & I1 & R1 & T1 & H1 & H2).
+  rewrite E1. assert (Ll : locs s1 = []) by (eapply swept_nil; eauto).
+  assert (Tt : temps s1 = []) by congruence.
+  destruct I1 as [a b0 c d]. destruct (res s1) as [o|] eqn:Rr.
+  - assert (Hp : 1 <= bal (tr s1) o). { rewrite c. simpl. rewrite Nat.eqb_refl. lia. }
+    rewrite (give_some _ _ Hp). unfold clean. simpl. split; [auto|]. split; [auto|]. split; [auto|]. split.
+    + intros o'. rewrite c, Tt, Ll. simpl. lia.
+    + destruct (Nat.eqb (bal (tr s1) o) 0) eqn:E; [apply Nat.eqb_eq in E; lia|]. auto.
+  - unfold clean. split; [auto|]. split; [auto|]. split; [auto|]. split; [|auto].
+    intros o'. rewrite c, Tt, Ll. simpl. auto.
+Qed.
+
+Lemma BT_empty_nil : forall (L : nat -> Prop) s, (forall u, ~ L u) -> BT L s -> temps s = [].
+Proof.
+  intros L s HL HB. apply all_none_nil. intros k. destruct (get k (temps s)) eqn:G; auto.
+  exfalso. apply (HL k). apply HB. unfold bound. congruence.
+Qed.
+
+Lemma Inv_init : forall n, Inv (init n).
+Proof. intros n. constructor; simpl; auto; constructor. Qed.
+
+Lemma error_path_ok : forall s, Inv s -> res s = None ->
+  match sweep temps set_temps (seq 0 (kbound (temps s))) s with
+  | Norm s1 => match res s1 with None => match epilogue false s1 with Done _ s' => clean s' | _ => False end
+                               | Some _ => False end
+  | _ => False
+  end.
+Proof.
+  intros s I Rn. destruct (sweep_temps_ok (seq 0 (kbound (temps s))) s I) as (s1 & E1 & I1 & R1 & L1 & H1 & H2).
+  rewrite E1. rewrite R1, Rn. apply epilogue_ok; auto. eapply swept_nil; eauto.
+Qed.
+
+Lemma weaken_final : forall f, match f with Done _ s' => clean s' | _ => False end ->
+  match f with Done _ s => clean s | FStuck _ => False | FFuel => True end.
+Proof. intros [b s|w|]; auto. Qed.
+
+Theorem balanced_all : forall body O fuel nargs none, jumps_ok false body = true ->
+  match run_fun O fuel nargs (gen_fun none body) with
+  | Done _ s => clean s
+  | FStuck _ => False
+  | FFuel => True
+  end.
+Proof.
+  intros body O fuel nargs none J. unfold run_fun, gen_fun.
+  destruct (gen_stmt body A0) as [c A'] eqn:G. cbn [fst exec].
+  assert (W0 : wfA A0) by (split; [constructor|intros t []]).
+  destruct (gen_stmt_ok body A0 c A' false G W0 J) as (_ & _ & S).
+  assert (E0 : forall u, ~ inuse A0 u) by (intros u [H _]; simpl in H; lia).
+  assert (B0 : B (inuse A0) (init nargs)).
+  { split; auto. intros u. unfold bound. simpl. split; [congruence|]. intro H; exfalso; eapply E0; eauto. }
+  specialize (S O fuel (init nargs) (Inv_init nargs) B0).
+  destruct (exec O fuel c (init nargs)) as [s1|s1|s1|s1|s1|w|]; cbn [bind]; try contradiction; auto.
+  - destruct S as [I1 B1].
+    assert (Hside : forall t, RArg none = RTmp t -> inuse A0 t) by (intros; discriminate).
+    pose proof (step_ISetRes O (RArg none) s1 (inuse A0) I1 B1 Hside) as HS.
+    destruct (step O (ISetRes (RArg none)) s1) as [s2|s2|s2|s2|s2|w|]; try contradiction.
+    + destruct HS as [I2 B2]. apply weaken_final, epilogue_ok; auto.
+      eapply BT_empty_nil; [|eauto]. intros u [Hu _]. eapply E0; eauto.
+    + destruct HS as [I2 R2]. apply weaken_final. pose proof (error_path_ok _ I2 R2) as HE.
+      destruct (sweep temps set_temps (seq 0 (kbound (temps s2))) s2); auto. destruct (res s); auto.
+  - destruct S as [I1 R1]. apply weaken_final. pose proof (error_path_ok _ I1 R1) as HE. destruct (sweep temps set_temps (seq 0 (kbound (temps s1))) s1); auto. destruct (res s); auto.
+  - destruct S as [I1 B1]. apply weaken_final, epilogue_ok; auto. eapply BT_empty_nil; [|eauto]. auto.
+  - destruct S; discriminate.
+  - destruct S; discriminate.
 Qed.
